@@ -4,6 +4,8 @@
 // real CommandLineTestRunner; trace, failure records, printed locations, counters, summary text, runner return
 // value, jump-buffer depth (hook H2) and current-test restoration are compared with a reference.
 #include <vector>
+#include <sys/mman.h>
+#include <unistd.h>
 #include <string>
 #include <stdexcept>
 #include <cstring>
@@ -104,6 +106,17 @@ struct WatchPlugin : TestPlugin {
 std::string g_console;
 void fputs_capture(const char* s, PlatformSpecificFile) { g_console += s; }
 void flush_nop() {}
+// Separate-process runs: the console is modelled as a fully buffered stream into a pipe (stdout redirected to a file or a
+// pipe): text reaches the pipe when the stream is flushed; a forked child that leaves through _exit() loses what it did not flush.
+struct Pipe { volatile size_t len; char data[(1 << 20) - 64]; };
+Pipe* g_pipe = nullptr; std::string g_unflushed;
+void fputs_buffered(const char* s, PlatformSpecificFile) { g_unflushed += s; }
+void flush_to_pipe() {
+    if (g_unflushed.empty()) return;
+    size_t at = __atomic_fetch_add(&g_pipe->len, g_unflushed.size(), __ATOMIC_SEQ_CST);
+    if (at + g_unflushed.size() < sizeof g_pipe->data) memcpy(g_pipe->data + at, g_unflushed.data(), g_unflushed.size());
+    g_unflushed.clear();
+}
 unsigned long time_zero() { return 0; }
 const char* timestr_fixed() { return "1970-01-01T00:00:00"; }
 
@@ -313,6 +326,9 @@ void run_program_sepproc(const Program& p, int repeat) {
     WatchPlugin plugin; plugin.report_error = p.plugin_error;
     TestRegistry reg; build_registry(p, reg); reg.installPlugin(&plugin);
     g_console.clear();
+    { static pid_t owner = 0; if (owner != getpid()) { owner = getpid(); g_pipe = (Pipe*)mmap(nullptr, sizeof(Pipe), PROT_READ | PROT_WRITE, MAP_SHARED | MAP_ANONYMOUS, -1, 0); } }
+    g_pipe->len = 0; g_unflushed.clear();
+    PlatformSpecificFPuts = fputs_buffered; PlatformSpecificFlush = flush_to_pipe;
     std::vector<const char*> av = {"prog", "-e", "-p", "-xn", "skipme"};
     std::string rarg = vf::fmt("-r%d", repeat); if (repeat > 1) av.push_back(rarg.c_str());
     if (p.run_ignored) av.push_back("-ri");
@@ -320,6 +336,21 @@ void run_program_sepproc(const Program& p, int repeat) {
     fflush(stdout); fflush(stderr);
     { CommandLineTestRunner runner((int)av.size(), av.data(), &reg); rv = runner.runAllTestsMain(); }
     UtestShell::setRethrowExceptions(false);
+    flush_to_pipe();                                              // what a normal exit of the runner process does
+    PlatformSpecificFPuts = fputs_capture; PlatformSpecificFlush = flush_nop;
+    g_console.assign(g_pipe->data, std::min((size_t)g_pipe->len, sizeof g_pipe->data));
+    // every failure of the reference is printed (by the child it happened in) exactly once with its own location
+    for (int r = 0, done = 0; r < repeat && !done; r++) {
+        Ref whole = reference(p, r);
+        for (size_t i = 0; i < whole.fail_lines.size() && !done; i++) {
+            bool at_test_line = false; for (size_t t = 0; t < p.tests.size(); t++) if (whole.fail_files[i] == "script.cpp" && whole.fail_lines[i] == (size_t)shell_line((int)t)) at_test_line = true;
+            if (at_test_line) continue;       // an escaped exception is located at the test's own line, like the parent's "Failed in separate process" record
+            std::string loc = whole.fail_files[i] == "script.cpp" ? vf::fmt("script.cpp:%zu: error: Failure in ", whole.fail_lines[i]) : vf::fmt("%s:%zu: error:", whole.fail_files[i].c_str(), whole.fail_lines[i]);
+            size_t want = 0; for (int r2 = 0; r2 < repeat; r2++) { Ref w2 = reference(p, r2); for (size_t j = 0; j < w2.fail_lines.size(); j++) if (w2.fail_lines[j] == whole.fail_lines[i] && w2.fail_files[j] == whole.fail_files[i]) want++; }
+            size_t got = count_occurrences(g_console, loc);
+            if (got != want) { vf::fail(got < want ? "runner-p/failure-text-lost" : "runner-p/failure-printed-more-than-once", desc + vf::fmt(": '%s' reached the (buffered) console %zu times, reference %zu", loc.c_str(), got, want)); done = 1; }
+        }
+    }
     if ((rv == 0) != !any_rep_fails) vf::fail(rv == 0 ? "runner-p/returns-zero-despite-failure" : "runner-p/returns-nonzero-without-failure", desc + vf::fmt(": runner returned %d, reference: some repetition fails=%d", rv, any_rep_fails));
     size_t from = 0;
     for (int r = 0; r < repeat; r++) {
